@@ -71,6 +71,22 @@ Qed.
 Lemma nth_repeat_lt {A} (x d : A) n i : i < n -> nth i (repeat x n) d = x.
 Proof. revert i; induction n as [|n IH]; intros [|i] H; cbn; auto; try lia. apply IH. lia. Qed.
 
+Lemma nth_insert_nth_lt' {A} (l : list A) i j x d : i < j -> j <= length l -> nth i (insert_nth l j x) d = nth i l d.
+Proof.
+  revert i j; induction l as [|h t IH]; intros i j H L; cbn in L; [lia|].
+  destruct j as [|j]; [lia|]. destruct i as [|i]; cbn; auto. apply IH; lia.
+Qed.
+
+Lemma nth_insert_nth_gt {A} (l : list A) i j x d : j < i -> j <= length l -> nth i (insert_nth l j x) d = nth (i - 1) l d.
+Proof.
+  revert i j; induction l as [|h t IH]; intros i j H L; cbn in L.
+  - assert (j = 0) by lia. subst. destruct i as [|i]; [lia|]. cbn. destruct i; reflexivity.
+  - destruct j as [|j].
+    + destruct i as [|i]; [lia|]. cbn. now rewrite Nat.sub_0_r.
+    + destruct i as [|i]; [lia|]. cbn [insert_nth nth]. rewrite IH by lia.
+      destruct i as [|i]; [lia|]. cbn. now rewrite Nat.sub_0_r.
+Qed.
+
 Lemma prod_perm l l' : Permutation l l' -> prod l = prod l'.
 Proof. induction 1; cbn; lia. Qed.
 
